@@ -769,6 +769,7 @@ theorem ok_dims (sym : Char → Bool) (strict interleaved : Bool) (text : List C
         · rename_i hz
           split at h
           · cases h
+          · cases h
           · rename_i rows' hr
             split at h
             · cases h
@@ -1214,7 +1215,7 @@ theorem symbolTest_post (sy : Syms) (s : RS) : Post (symbolTest sy s) (fun _ => 
   · refine Post.pure ?_; trivial
   · refine Post.pure ?_; trivial
   · refine Post.pure ?_; trivial
-  · exact Post.unmodelled _
+  · refine Post.pure ?_; trivial
   · dsimp only
     refine Post.ite (Post.perr _) (Post.ite (Post.perr _) ?_)
     refine Post.pure ?_; trivial
@@ -1252,17 +1253,24 @@ theorem readStates_post (symOk : Char → Bool) (r : Nat) (s : RS) : Post (readS
         · pfin
         · refine Post.ite ?_ ?_
           · pfin
-          · refine Post.bind (cellsOf_post _ _ _ _ _ _ _) ?_
-            intro n _
-            pfin
+          · refine Post.ite ?_ ?_
+            · refine Post.ite ?_ ?_ <;> pfin
+            · refine Post.bind (cellsOf_post _ _ _ _ _ _ _) ?_
+              intro n _
+              pfin
   · intro s5 h5
     simp only [LeQ] at h5
     rw [hite] at h5
     try dsimp only at h5
     refine Post.ite ?_ ?_
-    · refine Post.pure ?_
-      simp only [LeQ]
-      omega
+    · refine Post.ite ?_ ?_
+      · refine Post.pure ?_
+        simp only [LeQ]
+        try dsimp only
+        omega
+      · refine Post.pure ?_
+        simp only [LeQ]
+        omega
     · refine Post.pure ?_
       simp only [LeQ]
       try dsimp only
@@ -1460,6 +1468,141 @@ theorem charsBlock_post (sy : Syms) (s : RS) : Post (charsBlock sy s) (LeQ s) :=
     simp only [LeQ] at *
     omega
 
+theorem getCharMatrix_post (title : Option (List Char)) (s : RS) : Post (getCharMatrix title s) (fun _ => True) := by
+  unfold getCharMatrix
+  split
+  · exact Post.ite (Post.pure trivial) (Post.perr _)
+  · dsimp only
+    split
+    · exact Post.pure trivial
+    · exact Post.perr _
+
+/-- a read with `next_token()` away from the end of the stream shortens the input -/
+theorem nextTok_lt (s s1 : RS) (t : Option (List Char)) (hne : s.rest ≠ [])
+    (h : s1.rest.length ≤ s.rest.length ∧ (t.isSome → s1.rest.length < s.rest.length) ∧ (t = none → s1.rest = [])) :
+    s1.rest.length < s.rest.length := nextUcase_lt s s1 t hne h
+
+theorem positionsRange_post (start max : Nat) (s : RS) (hne : s.rest ≠ []) : Post (positionsRange start max s) (BodyQ s) := by
+  unfold positionsRange
+  pb
+  rename_i t2 s2 h2
+  have hlt := nextTok_lt s s2 t2 hne h2
+  split
+  · pfin
+  · refine Post.ite (Post.perr _) (Post.ite (Post.perr _) ?_)
+    try dsimp only
+    pb
+    rename_i t3 s3 h3
+    have h3a := h3.1
+    refine Post.ite ?_ ?_
+    · pb
+      rename_i t4 s4 h4
+      have h4a := h4.1
+      split
+      · pfin
+      · refine Post.ite (Post.perr _) (Post.ite ?_ (Post.perr _))
+        pb
+        rename_i t5 s5 h5
+        have h5a := h5.1
+        pfin
+    · pfin
+
+theorem parsePositions_post (s : RS) : Post (parsePositions s) (LeQ s) := by
+  unfold parsePositions
+  try dsimp only
+  pb
+  rename_i t s1 h1
+  have h1a := h1.1
+  try dsimp only at h1a
+  refine Post.ite (Post.perr _) ?_
+  refine Post.bind (iter_post _ ?_ _) ?_
+  · intro s
+    split
+    · pfin
+    · refine Post.ite' (fun _ => ?_) (fun hc => ?_)
+      · pfin
+      · have hne : s.rest ≠ [] := by
+          intro he; apply hc; simp [RS.eof, he]
+        refine Post.ite ?_ ?_
+        · pfin
+        · refine Post.ite ?_ ?_
+          · pfin
+          · refine Post.ite ?_ (Post.perr _)
+            try dsimp only
+            pb
+            rename_i t1 s2 h2
+            have hlt := nextTok_lt s s2 t1 hne h2
+            split
+            · pfin
+            · refine Post.ite ?_ ?_
+              · pfin
+              · refine Post.ite ?_ ?_
+                · pfin
+                · refine Post.ite ?_ (Post.perr _)
+                  have hne2 : s2.rest ≠ [] ∨ s2.rest = [] := by
+                    by_cases h : s2.rest = []
+                    · exact Or.inr h
+                    · exact Or.inl h
+                  rcases hne2 with hne2 | hemp
+                  · refine Post.mono (positionsRange_post _ _ s2 hne2) ?_
+                    intro p hp
+                    simp only [BodyQ] at hp ⊢
+                    exact ⟨by omega, fun hh => by have := hp.2 hh; omega⟩
+                  · -- at the end of the stream the range cannot be read: `next_token()` returns `None`, an error
+                    unfold positionsRange
+                    refine Post.bind (nextTok_post s2) ?_
+                    rintro ⟨t2, s3⟩ h3
+                    have : t2 = none := by
+                      cases t2 with
+                      | none => rfl
+                      | some x =>
+                        have := h3.2.1 rfl
+                        simp only [hemp, List.length_nil] at this
+                        omega
+                    subst this
+                    exact Post.perr _
+  · intro s9 h9
+    simp only [LeQ] at h9
+    try dsimp only at h9
+    refine Post.ite (Post.perr _) ?_
+    refine Post.pure ?_
+    simp only [LeQ]
+    try dsimp only
+    omega
+macro_rules | `(tactic| pbind) => `(tactic| refine Post.bind (parsePositions_post _) ?_)
+
+theorem parseCharset_post (s : RS) (hne : s.rest ≠ []) : Post (parseCharset s) (fun s' => s'.rest.length < s.rest.length) := by
+  unfold parseCharset
+  refine Post.bind (getCharMatrix_post _ _) ?_
+  intro m _
+  pb
+  rename_i t s1 h1
+  have hlt := nextTok_lt s s1 t hne h1
+  refine Post.ite (Post.perr _) ?_
+  pb
+  rename_i t2 s2 h2
+  have h2a := h2.1
+  refine Post.ite (Post.perr _) (Post.ite (Post.perr _) ?_)
+  pb
+  rename_i s3 h3
+  simp only [LeQ] at h3
+  refine Post.ite (Post.perr _) ?_
+  refine Post.pure ?_
+  try dsimp only
+  omega
+
+/-- at the end of the stream a CHARSET statement fails on its first read -/
+theorem parseCharset_eof (s : RS) (he : s.rest = []) : Post (parseCharset s) (fun _ => False) := by
+  unfold parseCharset
+  refine Post.bind (getCharMatrix_post _ _) ?_
+  intro m _
+  refine Post.bind (nextTok_post _) ?_
+  rintro ⟨t2, s2⟩ h2
+  have h2a := h2.1
+  simp only [he, List.length_nil, Nat.le_zero_eq, List.length_eq_zero_iff] at h2a
+  refine Post.ite' (fun _ => Post.perr _) (fun hc2 => ?_)
+  exfalso; apply hc2; simp [RS.eof, h2a]
+
 theorem setsBlock_post (s : RS) : Post (setsBlock s) (LeQ s) := by
   unfold setsBlock
   pb
@@ -1478,13 +1621,21 @@ theorem setsBlock_post (s : RS) : Post (setsBlock s) (LeQ s) := by
       · refine Post.ite ?_ ?_
         · pb
           pfin
-        · refine Post.ite (Post.unmodelled _) ?_
-          refine Post.ite ?_ ?_ <;> pfin
+        · refine Post.ite ?_ ?_
+          · -- CHARSET: at the end of the stream the statement fails on its first read, otherwise it consumes input
+            by_cases he : s1.rest = []
+            · exact Post.bind (parseCharset_eof _ he) (fun a h => h.elim)
+            · refine Post.bind (parseCharset_post _ he) ?_
+              intro s2 h2
+              try dsimp only at h2
+              pfin
+          · refine Post.ite ?_ ?_ <;> pfin
   · intro s5 h5
     simp only [LeQ] at h5
     refine Post.mono (skipToSemi_post _) ?_
     intro a ha
     simp only [LeQ] at *
+    try dsimp only at h0
     omega
 
 theorem skipToBegin_body (s : RS) : Post ((fun (s : RS) => do
@@ -1579,7 +1730,7 @@ theorem reader_loop_rule (b : RS → R (Bool × RS)) (hb : ∀ s, Post (b s) (Bo
 /-- **No loop of the NEXUS reader can spin.**  For every symbol table and every text — complete, corrupted or cut at
 any point — `readNexus` (main block loop, TAXA / CHARACTERS / DATA / TREES / SETS block loops, TITLE, LINK, DIMENSIONS,
 FORMAT incl. the SYMBOLS loop, TAXLABELS, TRANSLATE, the TREE-statement loop, MATRIX with both row readers,
-`skip_to_semicolon`, `_consume_to_end_of_block`) returns a result or a parse error; the marker `internal`, which the
+`skip_to_semicolon`, `_consume_to_end_of_block`, CHARSET with its position lists, continuous matrices) returns a result or a parse error; the marker `internal`, which the
 model produces exactly when a loop would continue without having consumed input, is unreachable.  (The `None`-token
 dereferences of the unrepaired code have no counterpart in the model: tokens read with `require_next_token` are
 `List Char`, tokens read with `next_token` are `Option` and every use of them is a case distinction.) -/
@@ -1612,6 +1763,436 @@ theorem skipSemis_leaves_token (k : Cfg) (cur : Option Tok) (rest : List Char) (
     (hne : ¬ (s = true ∧ r = [])) : c ≠ none ∧ c ≠ some semi ∧ r.length ≤ rest.length := by
   have := skipSemis_le k rest.length cur rest started (Nat.le_refl _) c r s h
   exact ⟨(this.2 hne).2, (this.2 hne).1, this.1⟩
+end DendroModel.C20
+
+namespace DendroModel.C20.Aux
+open DendroModel DendroModel.C20
+
+/-! ### the line readers (PHYLIP, FASTA): indices stay in range, loop invariants -/
+def LPost {α : Type} (r : Except LErr α) (Q : α → Prop) : Prop :=
+  (∀ w, r ≠ .error (.internal w)) ∧ ∀ a, r = .ok a → Q a
+
+theorem LPost.pure {α : Type} {a : α} {Q : α → Prop} (h : Q a) : LPost (Pure.pure a : Except LErr α) Q :=
+  ⟨fun w hw => (by cases hw), fun b hb => (by cases hb; exact h)⟩
+
+theorem LPost.perr {α : Type} {Q : α → Prop} (e : PErr) : LPost (lperr e : Except LErr α) Q :=
+  ⟨fun w hw => (by unfold lperr at hw; cases hw), fun b hb => (by unfold lperr at hb; cases hb)⟩
+
+theorem LPost.bind {α β : Type} {x : Except LErr α} {g : α → Except LErr β} {Q1 : α → Prop} {Q2 : β → Prop}
+    (hx : LPost x Q1) (hg : ∀ a, Q1 a → LPost (g a) Q2) : LPost (x >>= g) Q2 := by
+  cases hxx : x with
+  | error e =>
+    have e1 : (Except.error e >>= g : Except LErr β) = Except.error e := rfl
+    rw [e1]
+    refine ⟨fun w hw => ?_, fun b hb => (by cases hb)⟩
+    cases hw
+    exact hx.1 w hxx
+  | ok a =>
+    have e2 : (Except.ok a >>= g : Except LErr β) = g a := rfl
+    rw [e2]
+    exact hg a (hx.2 a hxx)
+
+theorem LPost.ite {α : Type} {c : Prop} [Decidable c] {a b : Except LErr α} {Q : α → Prop}
+    (ha : c → LPost a Q) (hb : ¬ c → LPost b Q) : LPost (if c then a else b) Q := by
+  split
+  · exact ha ‹_›
+  · exact hb ‹_›
+
+theorem idxOf_range {α : Type} (p : α → Bool) : ∀ (l : List α) (k i : Nat), idxOf p l k = some i → k ≤ i ∧ i < k + l.length
+  | [], k, i, h => by simp [idxOf] at h
+  | a :: as, k, i, h => by
+    unfold idxOf at h
+    split at h
+    · simp only [Option.some.injEq] at h; subst h; simp
+    · have := idxOf_range p as (k + 1) i h
+      simp only [List.length_cons]; omega
+
+theorem rowIdx_lt (rows : Rows) (lab : List Char) (i : Nat) (h : rowIdx rows lab = some i) : i < rows.length := by
+  have := idxOf_range _ rows 0 i h
+  omega
+
+theorem addCells_post (rows : Rows) (i n : Nat) (hi : i < rows.length) :
+    LPost (addCells rows i n) (fun rows' => rows'.length = rows.length ∧
+      (∀ j, j ≠ i → rows'[j]? = rows[j]?) ∧ (∀ r, rows[i]? = some r → rows'[i]? = some (r.1, r.2 + n))) := by
+  unfold addCells
+  rw [if_pos hi]
+  refine ⟨fun w hw => (by cases hw), fun a ha => ?_⟩
+  simp only [Except.ok.injEq] at ha
+  subst ha
+  refine ⟨by simp, ?_, ?_⟩
+  · intro j hj
+    simp only [List.getElem?_mapIdx]
+    cases rows[j]? with
+    | none => rfl
+    | some r => simp [hj]
+  · intro r hr
+    simp [List.getElem?_mapIdx, hr]
+
+theorem cellsAt_post (rows : Rows) (i : Nat) (hi : i < rows.length) :
+    LPost (cellsAt rows i) (fun c => ∃ r, rows[i]? = some r ∧ c = r.2) := by
+  unfold cellsAt
+  have : rows[i]? = some rows[i] := by simp [hi]
+  rw [this]
+  exact ⟨fun w hw => (by cases hw), fun a ha => (by cases ha; exact ⟨_, rfl, rfl⟩)⟩
+
+theorem phyTaxon_post (strict : Bool) (ntax nchar : Nat) (rows : Rows) (line : List Char) (hle : rows.length ≤ ntax) :
+    LPost (phyTaxon strict ntax nchar rows line) (fun p => p.1 < p.2.1.length ∧ p.2.1.length ≤ ntax ∧ rows.length ≤ p.2.1.length) := by
+  unfold phyTaxon
+  dsimp only
+  refine LPost.ite (fun _ => LPost.perr _) (fun _ => ?_)
+  split
+  · rename_i i hi
+    have hlt := rowIdx_lt _ _ _ hi
+    refine LPost.bind (cellsAt_post rows i hlt) ?_
+    intro c _
+    refine LPost.ite (fun _ => LPost.perr _) (fun _ => LPost.pure ⟨hlt, hle, Nat.le_refl _⟩)
+  · refine LPost.ite (fun _ => LPost.perr _) (fun h => LPost.pure ?_)
+    simp only [List.length_append, List.length_cons, List.length_nil] at h ⊢
+    omega
+
+theorem phyCells_post (sym : Char → Bool) (line : List Char) : LPost (phyCells sym line) (fun _ => True) := by
+  unfold phyCells
+  dsimp only
+  exact LPost.ite (fun _ => LPost.pure trivial) (fun _ => LPost.perr _)
+
+/-- sequential PHYLIP rows: indices stay in range, the number of rows never exceeds NTAX -/
+theorem phySequential_post (sym : Char → Bool) (strict : Bool) (ntax nchar : Nat) :
+    ∀ (ls : List (List Char)) (rows : Rows) (cur : Option Nat), rows.length ≤ ntax → (∀ i, cur = some i → i < rows.length) →
+      LPost (phySequential sym strict ntax nchar ls rows cur) (fun rows' => rows'.length ≤ ntax ∧ rows.length ≤ rows'.length)
+  | [], rows, cur, hle, _ => by unfold phySequential; exact LPost.pure ⟨hle, Nat.le_refl _⟩
+  | line :: ls, rows, cur, hle, hcur => by
+    unfold phySequential
+    dsimp only
+    refine LPost.ite (fun _ => phySequential_post sym strict ntax nchar ls rows cur hle hcur) (fun _ => ?_)
+    refine LPost.bind (Q1 := fun p => p.1 < p.2.1.length ∧ p.2.1.length ≤ ntax ∧ rows.length ≤ p.2.1.length) ?_ ?_
+    · split
+      · rename_i i
+        exact LPost.pure ⟨hcur i rfl, hle, Nat.le_refl _⟩
+      · exact phyTaxon_post strict ntax nchar rows _ hle
+    · rintro ⟨i, rows1, line1⟩ ⟨h1, h2, h3⟩
+      dsimp only at h1 h2 h3 ⊢
+      refine LPost.bind (phyCells_post sym line1) ?_
+      intro n _
+      refine LPost.bind (addCells_post rows1 i n h1) ?_
+      intro rows2 ⟨hl2, _, _⟩
+      refine LPost.bind (cellsAt_post rows2 i (by omega)) ?_
+      intro c _
+      have := phySequential_post sym strict ntax nchar ls rows2 (if c ≥ nchar then none else some i) (by omega)
+        (by intro j hj; split at hj <;> simp at hj; omega)
+      refine ⟨this.1, fun a ha => ?_⟩
+      have := this.2 a ha
+      omega
+
+/-- interleaved PHYLIP rows: `taxon_namespace[paged_row]` is always a valid index -/
+theorem phyInterleaved_post (sym : Char → Bool) (strict : Bool) (ntax nchar : Nat) (hpos : 0 < ntax) :
+    ∀ (ls : List (List Char)) (rows : Rows) (paged : Bool) (pagedRow : Int), rows.length ≤ ntax →
+      (paged = true → rows.length = ntax) → -1 ≤ pagedRow → pagedRow < ntax →
+      LPost (phyInterleaved sym strict ntax nchar ls rows paged pagedRow) (fun rows' => rows'.length ≤ ntax ∧ rows.length ≤ rows'.length)
+  | [], rows, paged, pagedRow, hle, _, _, _ => by unfold phyInterleaved; exact LPost.pure ⟨hle, Nat.le_refl _⟩
+  | line :: ls, rows, paged, pagedRow, hle, hpg, hlo, hhi => by
+    unfold phyInterleaved
+    dsimp only
+    refine LPost.ite (fun _ => phyInterleaved_post sym strict ntax nchar hpos ls rows paged pagedRow hle hpg hlo hhi) (fun _ => ?_)
+    have hb : (0 : Int) ≤ (if pagedRow + 1 ≥ (ntax : Int) then 0 else pagedRow + 1) ∧
+        (if pagedRow + 1 ≥ (ntax : Int) then 0 else pagedRow + 1) < (ntax : Int) := by
+      split <;> omega
+    generalize (if pagedRow + 1 ≥ (ntax : Int) then 0 else pagedRow + 1) = pr at hb ⊢
+    refine LPost.ite (fun hp => ?_) (fun hp => ?_)
+    · refine LPost.ite (fun hneg => absurd hneg (by omega)) (fun _ => ?_)
+      refine LPost.bind (phyCells_post sym _) ?_
+      intro n _
+      have hidx : pr.toNat < rows.length := by
+        rw [hpg hp]; omega
+      refine LPost.bind (addCells_post rows pr.toNat n hidx) ?_
+      intro rows2 ⟨hl2, _, _⟩
+      have := phyInterleaved_post sym strict ntax nchar hpos ls rows2 paged pr (by omega) (by intro h; rw [hl2]; exact hpg h) (by omega) hb.2
+      refine ⟨this.1, fun a ha => ?_⟩
+      have := this.2 a ha
+      omega
+    · refine LPost.bind (phyTaxon_post strict ntax nchar rows _ hle) ?_
+      rintro ⟨i, rows1, line1⟩ ⟨h1, h2, h3⟩
+      dsimp only at h1 h2 h3 ⊢
+      refine LPost.bind (phyCells_post sym line1) ?_
+      intro n _
+      refine LPost.bind (addCells_post rows1 i n h1) ?_
+      intro rows2 ⟨hl2, _, _⟩
+      have := phyInterleaved_post sym strict ntax nchar hpos ls rows2 (rows1.length == ntax)
+        (if (rows1.length == ntax) = true then -1 else pr) (by omega)
+        (by intro h; rw [hl2]; simpa using h) (by split <;> omega) (by split <;> omega)
+      refine ⟨this.1, fun a ha => ?_⟩
+      have := this.2 a ha
+      omega
+
+/-- the FASTA loop: `cur` is the last row; every earlier row has at least one cell -/
+theorem fastaLines_post (sym : Char → Bool) :
+    ∀ (ls : List (List Char)) (rows : Rows) (cur : Option Nat),
+      (∀ i, cur = some i → i + 1 = rows.length) → (cur = none → rows = []) →
+      (∀ j r, j + 1 < rows.length → rows[j]? = some r → 0 < r.2) →
+      LPost (fastaLines sym ls rows cur) (fun rows' => ∀ j r, j + 1 < rows'.length → rows'[j]? = some r → 0 < r.2)
+  | [], rows, cur, _, _, hne => by unfold fastaLines; exact LPost.pure hne
+  | line :: ls, rows, cur, hc, hn, hne => by
+    unfold fastaLines
+    dsimp only
+    refine LPost.ite (fun _ => fastaLines_post sym ls rows cur hc hn hne) (fun _ => ?_)
+    split
+    · -- a name line
+      split
+      · exact LPost.perr _
+      · split
+        · rename_i i
+          have hi := hc i rfl
+          refine LPost.bind (cellsAt_post rows i (by omega)) ?_
+          intro c ⟨r0, hr0, hc0⟩
+          refine LPost.ite (fun _ => LPost.perr _) (fun hz => ?_)
+          refine fastaLines_post sym ls (rows ++ [(_, 0)]) (some rows.length) (by intro k hk; simp at hk; simp; omega) (by intro h; cases h) ?_
+          intro j r hj hjr
+          simp only [List.length_append, List.length_cons, List.length_nil] at hj
+          have hjl : j < rows.length := by omega
+          rw [List.getElem?_append_left hjl] at hjr
+          by_cases hji : j = i
+          · subst hji
+            rw [hr0] at hjr
+            cases hjr
+            have : c ≠ 0 := by simpa using hz
+            omega
+          · exact hne j r (by omega) hjr
+        · have hr := hn rfl
+          subst hr
+          refine fastaLines_post sym ls ([] ++ [(_, 0)]) (some 0) (by intro k hk; simp at hk; simp; omega) (by intro h; cases h) ?_
+          intro j r hj _
+          simp at hj
+    · -- a sequence line
+      split
+      · exact LPost.perr _
+      · rename_i i
+        have hi := hc i rfl
+        refine LPost.ite (fun _ => ?_) (fun _ => LPost.perr _)
+        refine LPost.bind (addCells_post rows i _ (by omega)) ?_
+        intro rows2 ⟨hl2, hoth, _⟩
+        refine fastaLines_post sym ls rows2 (some i) (by intro k hk; cases hk; omega) (by intro h; cases h) ?_
+        intro j r hj hjr
+        rw [hl2] at hj
+        rw [hoth j (by omega)] at hjr
+        exact hne j r hj hjr
+
+
+end DendroModel.C20.Aux
+
+namespace DendroModel.C20
+open DendroModel DendroModel.C20.Aux
+
+/-- **PHYLIP: no index is ever out of range.**  For every text, mode and symbol set the PHYLIP reader model returns a
+matrix or a parse error; `internal` — the model's `IndexError` (`taxon_namespace[paged_row]` of the interleaved loop,
+or a row index the sequential loop would have lost) — is unreachable. -/
+theorem phylip_never_internal (sym : Char → Bool) (strict interleaved : Bool) (text : List Char) (w : String) :
+    readPhylip sym strict interleaved text ≠ .internal w := by
+  unfold readPhylip
+  dsimp only
+  split
+  · intro h; cases h
+  · split
+    · intro h; cases h
+    · split
+      · intro h; cases h
+      · rename_i ntax nchar _
+        split
+        · intro h; cases h
+        · rename_i hz
+          have hpos : 0 < ntax := by
+            simp only [Bool.or_eq_true, beq_iff_eq, not_or] at hz; omega
+          split
+          · intro h; cases h
+          · rename_i w' hr
+            exfalso
+            split at hr
+            · exact (phyInterleaved_post sym strict ntax nchar hpos _ [] false (-1) (by simp) (by intro h; cases h) (by omega) (by omega)).1 w' hr
+            · exact (phySequential_post sym strict ntax nchar _ [] none (by simp) (by intro i h; cases h)).1 w' hr
+          · split
+            · intro h; cases h
+            · split <;> (intro h; cases h)
+
+/-- **PHYLIP row loops never hold more rows than NTAX** (both loops, from the empty matrix, for every list of lines):
+so the final row-count guard of the reader can only reject too *few* rows. -/
+theorem phylip_loops_bounded (sym : Char → Bool) (strict : Bool) (ntax nchar : Nat) (hpos : 0 < ntax) (body : List (List Char)) (rows : Rows) :
+    (phySequential sym strict ntax nchar body [] none = .ok rows → rows.length ≤ ntax) ∧
+    (phyInterleaved sym strict ntax nchar body [] false (-1) = .ok rows → rows.length ≤ ntax) :=
+  ⟨fun h => ((phySequential_post sym strict ntax nchar body [] none (by simp) (by intro i h; cases h)).2 rows h).1,
+   fun h => ((phyInterleaved_post sym strict ntax nchar hpos body [] false (-1) (by simp) (by intro h; cases h) (by omega) (by omega)).2 rows h).1⟩
+
+/-- **FASTA: no index is ever out of range** (the row being filled is always the last row). -/
+theorem fasta_never_internal (sym : Char → Bool) (text : List Char) (w : String) : readFasta sym text ≠ .internal w := by
+  unfold readFasta
+  split
+  · intro h; cases h
+  · rename_i w' hr
+    exact absurd hr ((fastaLines_post sym _ [] none (by intro i h; cases h) (fun _ => rfl) (by intro j r hj; simp at hj)).1 w')
+  · intro h; cases h
+
+/-- **FASTA: every sequence but possibly the last is non-empty** in a returned matrix (a name line that follows an
+empty sequence is rejected), for every text. -/
+theorem fasta_rows_nonempty (sym : Char → Bool) (text : List Char) (rows : Rows) (h : readFasta sym text = .ok rows) :
+    ∀ j r, j + 1 < rows.length → rows[j]? = some r → 0 < r.2 := by
+  unfold readFasta at h
+  split at h
+  · cases h
+  · cases h
+  · rename_i rows' hr
+    simp only [MatRes.ok.injEq] at h
+    subst h
+    exact (fastaLines_post sym _ [] none (by intro i h; cases h) (fun _ => rfl) (by intro j r hj; simp at hj)).2 _ hr
+
+
+end DendroModel.C20
+
+namespace DendroModel.C20.Aux
+open DendroModel DendroModel.C20
+
+/-- ok-only Hoare triple (no claim about errors) -/
+def OkImp {α : Type} (r : R α) (Q : α → Prop) : Prop := ∀ a, r = .ok a → Q a
+
+theorem OkImp.bind {α β : Type} {x : R α} {g : α → R β} {Q : β → Prop} (hg : ∀ a, OkImp (g a) Q) : OkImp (x >>= g) Q := by
+  intro b hb
+  cases hx : x with
+  | error e => rw [hx] at hb; cases hb
+  | ok a => rw [hx] at hb; exact hg a b hb
+
+theorem OkImp.ite {α : Type} {c : Prop} [Decidable c] {a b : R α} {Q : α → Prop} (ha : c → OkImp a Q) (hb : ¬ c → OkImp b Q) :
+    OkImp (if c then a else b) Q := by
+  split
+  · exact ha ‹_›
+  · exact hb ‹_›
+
+theorem OkImp.perr {α : Type} {Q : α → Prop} (e : PErr) : OkImp (perr e : R α) Q := by
+  intro a h; unfold C20.perr at h; cases h
+
+theorem parsePositions_range (s : RS) : OkImp (parsePositions s) (fun s' => ∀ q ∈ s'.positions, q ≤ s.nchar.getD 0) := by
+  unfold parsePositions
+  dsimp only
+  refine OkImp.bind ?_
+  rintro ⟨t, s1⟩
+  dsimp only
+  refine OkImp.ite (fun _ => OkImp.perr _) (fun _ => ?_)
+  refine OkImp.bind ?_
+  intro s9
+  refine OkImp.ite (fun _ => OkImp.perr _) (fun hn => ?_)
+  intro a ha
+  simp only [pure, Except.pure, Except.ok.injEq] at ha
+  subst ha
+  intro q hq
+  dsimp only at hq hn ⊢
+  simp only [List.any_eq_true, decide_eq_true_eq, not_exists, not_and, Nat.not_lt] at hn
+  exact hn q hq
+
+
+end DendroModel.C20.Aux
+
+namespace DendroModel.C20
+open DendroModel DendroModel.C20.Aux
+
+/-- **CHARSET positions stay inside the matrix.**  Whenever `_parse_positions` returns, every (1-based) position of
+the list is at most the declared NCHAR — single positions, ranges, `.`, `ALL` and stepped ranges alike. -/
+theorem charset_positions_in_range (s s' : RS) (h : parsePositions s = .ok s') : ∀ q ∈ s'.positions, q ≤ s.nchar.getD 0 :=
+  parsePositions_range s s' h
+
+/-! ### bounded work -/
+
+/-- the number of machine steps `run` takes from a state (a ghost counter over the driver's own `step`) -/
+def runSteps (k : Cfg) (st : NState) : Nat :=
+  match h : step k st with
+  | .done _ => 1
+  | .next st' => 1 + runSteps k st'
+termination_by st.measure
+decreasing_by exact step_decreases k st st' h
+
+/-- the number of times `iter` runs its body from a state (a ghost counter over the driver's own `iter`) -/
+def iterRounds (body : RS → R (Bool × RS)) (s : RS) : Nat :=
+  match body s with
+  | .ok (true, s') => if s'.rest.length < s.rest.length then 1 + iterRounds body s' else 1
+  | _ => 1
+termination_by s.rest.length
+
+/-- **Linear work, Newick.**  Parsing a tree statement takes at most `3·|unread input| + 3` machine steps: the reader
+never re-reads input (no quadratic behaviour, whatever the nesting). -/
+theorem newick_steps_linear (k : Cfg) (st : NState) : runSteps k st ≤ 3 * st.rest.length + 3 := by
+  have key : ∀ (n : Nat) (st : NState), st.measure ≤ n → runSteps k st ≤ st.measure + 1 := by
+    intro n
+    induction n with
+    | zero =>
+      intro st hm
+      rw [runSteps]
+      split
+      · omega
+      · rename_i st' h
+        have := step_decreases k st st' h
+        omega
+    | succ n ih =>
+      intro st hm
+      rw [runSteps]
+      split
+      · omega
+      · rename_i st' h
+        have hd := step_decreases k st st' h
+        have := ih st' (by omega)
+        omega
+  have h1 := key st.measure st (Nat.le_refl _)
+  have h2 := rank_le st
+  unfold NState.measure at h1
+  omega
+
+/-- **Linear work, every reader loop.**  A loop of the NEXUS reader runs its body at most `|unread input| + 1` times. -/
+theorem reader_loop_rounds_linear (body : RS → R (Bool × RS)) (s : RS) : iterRounds body s ≤ s.rest.length + 1 := by
+  have key : ∀ (n : Nat) (s : RS), s.rest.length ≤ n → iterRounds body s ≤ s.rest.length + 1 := by
+    intro n
+    induction n with
+    | zero =>
+      intro s hl
+      rw [iterRounds]
+      split
+      · split
+        · omega
+        · omega
+      · omega
+    | succ n ih =>
+      intro s hl
+      rw [iterRounds]
+      split
+      · split
+        · rename_i s' _ hlt
+          have := ih s' (by omega)
+          omega
+        · omega
+      · omega
+  exact key s.rest.length s (Nat.le_refl _)
+
+/-- **End of stream is a parse error.**  Cut a document — any text — after any number `n` of characters: each of the
+four reader models either still accepts what is left or reports a *parse* error; no third outcome exists (the
+`internal` markers are unreachable by `nexus_never_internal`, `newick_never_internal`, `phylip_never_internal`,
+`fasta_never_internal`, and the models are total functions, so they terminate).  In particular every truncation of
+an accepted document is accepted or a parse error. -/
+theorem eof_is_parse_error (sy : Syms) (sym : Char → Bool) (strict interleaved : Bool) (doc : List Char) (n : Nat) :
+    ((∃ s, readNexus sy (doc.take n) = .ok s) ∨ ∃ e, readNexus sy (doc.take n) = .error (.parse e)) ∧
+    ((∃ ts, readNewick (doc.take n) = .ok ts) ∨ ∃ e, readNewick (doc.take n) = .err e) ∧
+    ((∃ rows, readPhylip sym strict interleaved (doc.take n) = .ok rows) ∨ ∃ e, readPhylip sym strict interleaved (doc.take n) = .err e) ∧
+    ((∃ rows, readFasta sym (doc.take n) = .ok rows) ∨ ∃ e, readFasta sym (doc.take n) = .err e) := by
+  refine ⟨?_, ?_, ?_, ?_⟩
+  · cases h : readNexus sy (doc.take n) with
+    | ok s => exact Or.inl ⟨s, rfl⟩
+    | error e =>
+      cases e with
+      | parse e => exact Or.inr ⟨e, rfl⟩
+      | internal w => exact absurd h (nexus_never_internal sy _ w)
+  · cases h : readNewick (doc.take n) with
+    | ok ts => exact Or.inl ⟨ts, rfl⟩
+    | err e => exact Or.inr ⟨e, rfl⟩
+    | internal w => exact absurd h (newick_never_internal _ w)
+  · cases h : readPhylip sym strict interleaved (doc.take n) with
+    | ok rows => exact Or.inl ⟨rows, rfl⟩
+    | err e => exact Or.inr ⟨e, rfl⟩
+    | internal w => exact absurd h (phylip_never_internal sym strict interleaved _ w)
+  · cases h : readFasta sym (doc.take n) with
+    | ok rows => exact Or.inl ⟨rows, rfl⟩
+    | err e => exact Or.inr ⟨e, rfl⟩
+    | internal w => exact absurd h (fasta_never_internal sym _ w)
 
 /-! ### non-vacuity: the hypotheses of the theorems above are satisfiable -/
 
@@ -1633,6 +2214,11 @@ example : ∃ rows, readPhylip (fun c => c == 'A') false false ['1', ' ', '1', '
 
 /-- ... and one whose row is longer than declared is rejected by the declared-versus-found check -/
 example : readPhylip (fun c => c == 'A') false false ['1', ' ', '1', '\n', 'x', ' ', 'A', 'A', '\n', '\n'] = .err .data := by decide
+
+/-- `fasta_rows_nonempty` / `phylip_loops_bounded`: accepted inputs exist -/
+example : readFasta (fun c => c == 'A') ['>', 'x', '\n', 'A', '\n', '>', 'y', '\n'] = .ok [(['x'], 1), (['y'], 0)] := by decide
+example : phySequential (fun c => c == 'A') false 1 1 [['x', ' ', 'A']] [] none = .ok [(['x'], 1)] := by rfl
+example : phyInterleaved (fun c => c == 'A') false 1 2 [['x', ' ', 'A'], ['A']] [] false (-1) = .ok [(['x'], 2)] := by rfl
 
 /- `newick_statement_progress` / `newick_balanced`: their hypothesis `parseStatement … = .tree …` holds for every accepted
 statement; the driver evaluates it on each generated valid document (evidence: `newick:valid:ok`, `nexus:valid:ok`),
